@@ -1,20 +1,23 @@
-\* leader transfer (t1) + replica replacement (t2); measured: 28,108 distinct states, 2,694,476 transitions,
-\* ~2.5 min at machine load 40 (6-8 workers); every Nx action non-zero under -coverage 1
+\* leader transfer (t1) + replica replacement (t2), two-command batches (NxBatch2) included;
+\* measured: 20,752 distinct states, 2,518,216 transitions, 1.5 min at machine load 20 (4 workers).
+\* (With ProofStales <- StalesQuick: 28,108 distinct states with and without NxBatch2 - a batch
+\* reaches nothing two one-command steps do not reach - and 3,513,004 / 2,694,476 transitions.)
 SPECIFICATION Spec
 CONSTANTS
   Tasks = {"t1", "t2"}
   Owners = {1}
   Cfgs <- CfgsQuick
-  ProofStales <- StalesQuick
+  ProofStales <- StalesQuick3
   RGs = {"ok", "le", "fver"}
   TGs = {"ok", "stale"}
   Exts = {"le", "fence"}
   WfExtra = {}
+  BatchRGs = {"none", "le"}
   MaxCE = 12
   MaxLE = 21
   MaxFver = 5
   LateReset = FALSE
 VIEW View
 INVARIANTS TypeOK C17_MetaValid C17_OneActive C17_Irreversible
-PROPERTIES C17_ProofCurrent C17_CutoverOnlyByCommit C17_FenceOwner C17_RejectedUnchanged C17_AbortOnlyBeforeCutover
+PROPERTIES C17_ProofCurrent C17_CutoverOnlyByCommit C17_FenceOwner C17_RejectedUnchanged C17_AbortOnlyBeforeCutover C17_BatchAsSequence
 CHECK_DEADLOCK FALSE
